@@ -207,13 +207,23 @@ func setBit(m uint32, i int, v bool) uint32 {
 	return m &^ (1 << uint(i))
 }
 
-// satisfies: the row has a=va, b=vb and every option a or b depends on (other than a and b
-// themselves, and other than pinned ones) is enabled, so that the pair is not moot.
+// needOf: the options that must be on for the pair t to be live: everything a or b depends on,
+// except a and b themselves and pinned options. A pair that itself switches off something the other
+// option depends on (eventFields = true with eventBased = false) is moot whatever the rest is; it
+// only has to occur.
+func needOf(t target, pinMask uint32) uint32 {
+	if (!t.va && ancestors[t.b]&(1<<uint(t.a)) != 0) || (!t.vb && ancestors[t.a]&(1<<uint(t.b)) != 0) {
+		return 0
+	}
+	return (ancestors[t.a] | ancestors[t.b]) &^ (1<<uint(t.a) | 1<<uint(t.b)) &^ pinMask
+}
+
+// satisfies: the row has a=va, b=vb and the pair is live in it.
 func satisfies(row uint32, t target, pinMask uint32) bool {
 	if bit(row, t.a) != t.va || bit(row, t.b) != t.vb {
 		return false
 	}
-	need := (ancestors[t.a] | ancestors[t.b]) &^ (1<<uint(t.a) | 1<<uint(t.b)) &^ pinMask
+	need := needOf(t, pinMask)
 	return row&need == need
 }
 
@@ -250,15 +260,11 @@ func coveringRows(g *featGrammar) (rows []uint32, ntargets int) {
 	def := g.effective(defaultMask())
 	rows = append(rows, def)
 	mark(def)
-	for remaining > 0 {
-		// seed: the first uncovered target, with everything it depends on enabled
-		var seed target
-		for i, t := range targets {
-			if !covered[i] {
-				seed = t
-				break
-			}
-		}
+	// One candidate row: seeded with target seed (and everything it depends on enabled), the other
+	// free options visited in the rotation of free that starts at position rot, each taking the
+	// value that satisfies more uncovered targets among the options fixed so far (dependencies not
+	// fixed yet are counted optimistically).
+	candidate := func(seed target, rot int) uint32 {
 		row := def
 		var fixed uint32 = g.PinMask
 		fix := func(i int, v bool) {
@@ -267,15 +273,14 @@ func coveringRows(g *featGrammar) (rows []uint32, ntargets int) {
 		}
 		fix(seed.a, seed.va)
 		fix(seed.b, seed.vb)
-		need := (ancestors[seed.a] | ancestors[seed.b]) &^ fixed
+		need := needOf(seed, g.PinMask) &^ fixed
 		for i := range options {
 			if need&(1<<uint(i)) != 0 {
 				fix(i, true)
 			}
 		}
-		// remaining options one by one: the value that satisfies more uncovered targets among
-		// the already fixed options (unfixed dependencies are counted optimistically)
-		for _, o := range free {
+		for x := range free {
+			o := free[(x+rot)%len(free)]
 			if fixed&(1<<uint(o)) != 0 {
 				continue
 			}
@@ -293,7 +298,7 @@ func coveringRows(g *featGrammar) (rows []uint32, ntargets int) {
 					if bit(r, t.a) != t.va || bit(r, t.b) != t.vb {
 						continue
 					}
-					nd := (ancestors[t.a] | ancestors[t.b]) &^ (1<<uint(t.a) | 1<<uint(t.b)) &^ g.PinMask
+					nd := needOf(t, g.PinMask)
 					if r&nd&f != nd&f { // a fixed dependency is off
 						continue
 					}
@@ -308,10 +313,40 @@ func coveringRows(g *featGrammar) (rows []uint32, ntargets int) {
 			}
 			fix(o, v)
 		}
-		if mark(row) == 0 {
+		return row
+	}
+	gain := func(row uint32) int {
+		n := 0
+		for i, t := range targets {
+			if !covered[i] && satisfies(row, t, g.PinMask) {
+				n++
+			}
+		}
+		return n
+	}
+	for remaining > 0 {
+		// candidates: the first few uncovered targets as seeds x every rotation of the option
+		// order; the row that satisfies most uncovered targets wins (first one on ties)
+		best, bestGain := uint32(0), -1
+		seeds := 0
+		for i, t := range targets {
+			if covered[i] {
+				continue
+			}
+			for rot := range free {
+				row := candidate(t, rot)
+				if gn := gain(row); gn > bestGain {
+					best, bestGain = row, gn
+				}
+			}
+			if seeds++; seeds >= 4 {
+				break
+			}
+		}
+		if mark(best) == 0 {
 			panic("covering array construction made no progress")
 		}
-		rows = append(rows, row)
+		rows = append(rows, best)
 	}
 	return rows, len(targets)
 }
@@ -890,6 +925,18 @@ func goVersion() string {
 
 func run(c *core.Ctx) {
 	p := buildPlan(c.Tier)
+	if os.Getenv("C17_PLAN") != "" { // development aid: print the plan and stop
+		for gi, g := range p.grammars {
+			fmt.Printf("%-16s rows=%d\n", g.Name, p.rowsPer[gi])
+		}
+		for i := 0; i < len(p.cases) && i < 2000; i++ {
+			if p.cases[i].G == 0 || i >= p.quickN {
+				fmt.Println(i, p.desc(i))
+			}
+		}
+		fmt.Println("cases", len(p.cases), "quick", p.quickN, "targets", p.targets)
+		os.Exit(0)
+	}
 	c.Rule("feature grammars (cmd/c17/grammars/*.tm, one feature each) x option assignments: per grammar the default configuration + a greedy pairwise-complete covering array over the 20 boolean options (every pair of free options in all 4 value combinations, in a row where the options they depend on are on); thorough adds every subset of the 12 parser options per grammar, by distance from the all-off / all-on corners. " +
 		"A case is distinct by (grammar, effective option assignment); non-trivial = accepted by the compiler and generating a file set (by content, package name normalised) not seen before, i.e. a distinct program handed to go build + go vet")
 	c.Assume("log.Fatal* is observed through a log output hook that panics with the caller's identity (the process would exit right after writing the message); other worker deaths and hangs are detected by the shard protocol")
